@@ -1,8 +1,8 @@
 (* C08 — property theorems only. Each is closed by [exact] of a lemma of the Proofs_* files. *)
 From Coq Require Import Ascii String.
 From Coq Require Import List ZArith QArith Bool.
-From Gst Require Import C08.Codec C08.Model C08.Model_db C08.Model_vario C08.Model_model C08.Model_more.
-From Gst Require Import C08.Proofs_codec C08.Proofs_basic C08.Proofs_db C08.Proofs_vario C08.Proofs_model C08.Proofs_more.
+From Gst Require Import C08.Codec C08.Model C08.Model_db C08.Model_vario C08.Model_model C08.Model_more C08.Model_rest C08.Model_rule.
+From Gst Require Import C08.Proofs_codec C08.Proofs_basic C08.Proofs_db C08.Proofs_vario C08.Proofs_model C08.Proofs_more C08.Proofs_rest C08.Proofs_rule C08.Proofs_formats.
 Import ListNotations.
 Local Open Scope string_scope.
 Local Open Scope list_scope.
@@ -62,69 +62,83 @@ Proof. exact @reads_vec_nil. Qed.
 (* ======================================================================= layer 2: classes *)
 (* reload name ser deser o = nf_read name deser (lex (print (nf_write name (ser o)))) ; file = print (nf_write ...) *)
 
-(* ---- NeighUnique: holds iff the flags that are never written have their default value *)
-Theorem C08_NeighUnique_roundtrip : forall a, wf_aneigh a ->
-  reload "NeighUnique" ser_NeighUnique deser_NeighUnique a = Some a.
-Proof. intros a H. apply roundtrip_of_reads; [reflexivity | apply good_ANeigh | apply NeighUnique_reads; exact H]. Qed.
+(* Formats.  The theorems below are about the files that the library writes and reads now.  Several classes append
+   records at the end of their file (options of a neighbourhood, flags of an anamorphosis, means of a model with drift,
+   number of components of a shift) or have a higher format level (Vario); their reader probes the end of the data, so
+   that a file of a previous version - which stops before these records - is still read, with the default values
+   (theorems ..._previous_format_read).  The round trips are also proved for the previous formats (coq/C08/Proofs_formats.v). *)
+
+(* ---- NeighUnique: every object (the options are stored) *)
+Theorem C08_NeighUnique_roundtrip : forall a, wf_aneighD true a ->
+  reload "NeighUnique" (ser_NeighUniqueD true) (deser_NeighUniqueD true) a = Some a.
+Proof. exact (NeighUnique_roundtrip_fmt true). Qed.
 Print Assumptions C08_NeighUnique_roundtrip.
-Theorem C08_NeighUnique_rewrite : forall a a', wf_aneigh a ->
-  reload "NeighUnique" ser_NeighUnique deser_NeighUnique a = Some a' ->
-  file "NeighUnique" ser_NeighUnique a' = file "NeighUnique" ser_NeighUnique a.
-Proof. intros a a' H. apply rewrite_of_roundtrip. apply C08_NeighUnique_roundtrip; exact H. Qed.
-Theorem C08_NeighUnique_refuted : exists a,
-  reload "NeighUnique" ser_NeighUnique deser_NeighUnique a <> Some a.
-Proof.
-  exists {| an_ndim := 2; an_xvalid := true; an_kfold := false; an_ball := false; an_leaf := 10 |}.
-  vm_compute. congruence.
-Qed.
+Theorem C08_NeighUnique_rewrite : forall a a', wf_aneighD true a ->
+  reload "NeighUnique" (ser_NeighUniqueD true) (deser_NeighUniqueD true) a = Some a' ->
+  file "NeighUnique" (ser_NeighUniqueD true) a' = file "NeighUnique" (ser_NeighUniqueD true) a.
+Proof. exact (NeighUnique_rewrite_fmt true). Qed.
+(* regression witness of the former defect (the cross-validation flag came back false) *)
+Definition nu_xvalid : aneigh := {| an_ndim := 2; an_xvalid := true; an_kfold := false; an_ball := true; an_leaf := 30 |}.
+Theorem C08_NeighUnique_every_object : forall a, reload "NeighUnique" (ser_NeighUniqueD true) (deser_NeighUniqueD true) a = Some a.
+Proof. intros a. apply C08_NeighUnique_roundtrip. intro H; discriminate H. Qed.
+Theorem C08_NeighUnique_previous_format_read :
+  nf_read "NeighUnique" (deser_NeighUniqueD true) (lex (file "NeighUnique" (ser_NeighUniqueD false) nu_xvalid)) = Some (aneigh_default 2).
+Proof. vm_compute. reflexivity. Qed.
+Theorem C08_NeighUnique_options_cured :
+  reload "NeighUnique" (ser_NeighUniqueD true) (deser_NeighUniqueD true) nu_xvalid = Some nu_xvalid.
+Proof. vm_compute. reflexivity. Qed.
 
 (* ---- NeighBench *)
-Theorem C08_NeighBench_roundtrip : forall o, wf_NeighBench o ->
-  reload "NeighBench" ser_NeighBench deser_NeighBench o = Some o.
-Proof. intros o H. apply roundtrip_of_reads; [reflexivity | apply good_NeighBench | apply NeighBench_reads; exact H]. Qed.
+Theorem C08_NeighBench_roundtrip : forall o, wf_NeighBench true o ->
+  reload "NeighBench" (ser_NeighBenchD true) (deser_NeighBenchD true) o = Some o.
+Proof. exact (NeighBench_roundtrip_fmt true). Qed.
 Print Assumptions C08_NeighBench_roundtrip.
-Theorem C08_NeighBench_rewrite : forall o o', wf_NeighBench o ->
-  reload "NeighBench" ser_NeighBench deser_NeighBench o = Some o' ->
-  file "NeighBench" ser_NeighBench o' = file "NeighBench" ser_NeighBench o.
-Proof. intros o o' H. apply rewrite_of_roundtrip. apply C08_NeighBench_roundtrip; exact H. Qed.
+Theorem C08_NeighBench_rewrite : forall o o', wf_NeighBench true o ->
+  reload "NeighBench" (ser_NeighBenchD true) (deser_NeighBenchD true) o = Some o' ->
+  file "NeighBench" (ser_NeighBenchD true) o' = file "NeighBench" (ser_NeighBenchD true) o.
+Proof. exact (NeighBench_rewrite_fmt true). Qed.
 (* regression: NeighBench::create(false, 2.5) keeps getWidth() = 2.5 (it came back as 0 before the fix) *)
 Theorem C08_NeighBench_width_kept :
   let o := {| nb_base := aneigh_default 2; nb_width := Some (5#2)%Q; nb_bipt_width := Some (5#2)%Q |} in
-  reload "NeighBench" ser_NeighBench deser_NeighBench o = Some o.
+  reload "NeighBench" (ser_NeighBenchD true) (deser_NeighBenchD true) o = Some o.
 Proof. vm_compute. reflexivity. Qed.
 
 (* ---- NeighCell *)
-Theorem C08_NeighCell_roundtrip : forall o, wf_NeighCell o ->
-  reload "NeighCell" ser_NeighCell deser_NeighCell o = Some o.
-Proof. intros o H. apply roundtrip_of_reads; [reflexivity | apply good_NeighCell | apply NeighCell_reads; exact H]. Qed.
+Theorem C08_NeighCell_roundtrip : forall o, wf_NeighCell true o ->
+  reload "NeighCell" (ser_NeighCellD true) (deser_NeighCellD true) o = Some o.
+Proof. exact (NeighCell_roundtrip_fmt true). Qed.
 Print Assumptions C08_NeighCell_roundtrip.
-Theorem C08_NeighCell_rewrite : forall o o', wf_NeighCell o ->
-  reload "NeighCell" ser_NeighCell deser_NeighCell o = Some o' ->
-  file "NeighCell" ser_NeighCell o' = file "NeighCell" ser_NeighCell o.
-Proof. intros o o' H. apply rewrite_of_roundtrip. apply C08_NeighCell_roundtrip; exact H. Qed.
+Theorem C08_NeighCell_rewrite : forall o o', wf_NeighCell true o ->
+  reload "NeighCell" (ser_NeighCellD true) (deser_NeighCellD true) o = Some o' ->
+  file "NeighCell" (ser_NeighCellD true) o' = file "NeighCell" (ser_NeighCellD true) o.
+Proof. exact (NeighCell_rewrite_fmt true). Qed.
 
 (* ---- NeighMoving: isotropic, anisotropic and rotated search ellipsoids, any radius *)
-Theorem C08_NeighMoving_roundtrip : forall o, wf_NeighMoving o ->
-  reload "NeighMoving" ser_NeighMoving deser_NeighMoving o = Some o.
-Proof. intros o H. apply roundtrip_of_reads; [reflexivity | apply good_NeighMoving | apply NeighMoving_reads; exact H]. Qed.
+Theorem C08_NeighMoving_roundtrip : forall o, wf_NeighMoving true o ->
+  reload "NeighMoving" (ser_NeighMovingD true) (deser_NeighMovingD true) o = Some o.
+Proof. exact (NeighMoving_roundtrip_fmt true). Qed.
 Print Assumptions C08_NeighMoving_roundtrip.
-Theorem C08_NeighMoving_rewrite : forall o o', wf_NeighMoving o ->
-  reload "NeighMoving" ser_NeighMoving deser_NeighMoving o = Some o' ->
-  file "NeighMoving" ser_NeighMoving o' = file "NeighMoving" ser_NeighMoving o.
-Proof. intros o o' H. apply rewrite_of_roundtrip. apply C08_NeighMoving_roundtrip; exact H. Qed.
+Theorem C08_NeighMoving_rewrite : forall o o', wf_NeighMoving true o ->
+  reload "NeighMoving" (ser_NeighMovingD true) (deser_NeighMovingD true) o = Some o' ->
+  file "NeighMoving" (ser_NeighMovingD true) o' = file "NeighMoving" (ser_NeighMovingD true) o.
+Proof. exact (NeighMoving_rewrite_fmt true). Qed.
 (* regression witnesses of the former defects: radius 20, coefficients (1, 0.5) (came back as (20, 10)); rotated
    ellipse create(false,10,20.,1,1,0,{1,.5},{30,0}) (the rotation flag came back false) *)
 Theorem C08_NeighMoving_scaling_cured :
-  reload "NeighMoving" ser_NeighMoving deser_NeighMoving nm_witness_scaling = Some nm_witness_scaling.
-Proof. vm_compute. reflexivity. Qed.
+  reload "NeighMoving" (ser_NeighMovingD true) (deser_NeighMovingD true) nm_witness_scaling = Some nm_witness_scaling.
+Proof. vm_compute; reflexivity. Qed.
 Theorem C08_NeighMoving_rotation_cured :
-  reload "NeighMoving" ser_NeighMoving deser_NeighMoving nm_witness_rotation = Some nm_witness_rotation.
+  reload "NeighMoving" (ser_NeighMovingD true) (deser_NeighMovingD true) nm_witness_rotation = Some nm_witness_rotation.
+Proof. vm_compute; reflexivity. Qed.
+(* _distCont: regression witness (it came back undefined); a file of the previous format gives it undefined *)
+Definition nm_distcont_witness : neigh_moving :=
+  {| nm_base := aneigh_default 2; nm_nmini := 1; nm_nmaxi := 10; nm_nsect := 1; nm_nsmax := 0; nm_distcont := Some (1#8)%Q;
+     nm_radius := Some 20%Q; nm_aniso := false; nm_rot := false; nm_coeffs := [d1; d1]; nm_rotmat := idmat 2 |}.
+Theorem C08_NeighMoving_previous_format_read :
+  option_map nm_distcont (nf_read "NeighMoving" (deser_NeighMovingD true) (lex (file "NeighMoving" (ser_NeighMovingD false) nm_distcont_witness))) = Some None.
 Proof. vm_compute. reflexivity. Qed.
-(* what is still lost: the flags of ANeigh and _distCont are never written *)
-Theorem C08_NeighMoving_refuted_distcont :
-  let o := {| nm_base := aneigh_default 2; nm_nmini := 1; nm_nmaxi := 10; nm_nsect := 1; nm_nsmax := 0; nm_distcont := Some (1#8)%Q;
-              nm_radius := Some 20%Q; nm_aniso := false; nm_rot := false; nm_coeffs := [d1; d1]; nm_rotmat := idmat 2 |} in
-  option_map nm_distcont (reload "NeighMoving" ser_NeighMoving deser_NeighMoving o) = Some None.
+Theorem C08_NeighMoving_distcont_cured :
+  reload "NeighMoving" (ser_NeighMovingD true) (deser_NeighMovingD true) nm_distcont_witness = Some nm_distcont_witness.
 Proof. vm_compute. reflexivity. Qed.
 
 (* ---- Table: any number of rows and columns *)
@@ -156,20 +170,35 @@ Theorem C08_Polygons_rewrite : forall o o', wf_Polygons o ->
   reload "Polygon" ser_Polygons deser_Polygons o = Some o' -> file "Polygon" ser_Polygons o' = file "Polygon" ser_Polygons o.
 Proof. intros o o' H. apply rewrite_of_roundtrip. apply C08_Polygons_roundtrip; exact H. Qed.
 
-(* ---- AnamHermite: any number of coefficients (at least one), point or block support; mean and variance must be the
-   ones the coefficients give *)
-(* regression witness of the former defect (block support r = 1/2, coefficients (1, 2, 4) came back as (1, 1, 1)) *)
+(* ---- AnamHermite: any number of coefficients (at least one), point or block support.
+   The reader keeps the mean and the variance of the file when they are defined; _flagBound is stored at the end of the file. *)
 Theorem C08_AnamHermite_block_cured :
-  reload "AnamHermite" ser_AnamHermite deser_AnamHermite ah_witness = Some ah_witness.
-Proof. vm_compute. reflexivity. Qed.
-Theorem C08_AnamHermite_roundtrip : forall o, wf_AnamHermite o ->
-  reload "AnamHermite" ser_AnamHermite deser_AnamHermite o = Some o.
-Proof. intros o H. apply roundtrip_of_reads; [reflexivity | apply good_AnamHermite | apply AnamHermite_reads; exact H]. Qed.
+  reload "AnamHermite" (ser_AnamHermiteD true) (deser_AnamHermiteD true true) {| ahd_core := ah_witness; ahd_bound := true |}
+  = Some {| ahd_core := ah_witness; ahd_bound := true |}.
+Proof. vm_compute; reflexivity. Qed.
+Theorem C08_AnamHermite_roundtrip : forall o, wf_AnamHermiteD true true o ->
+  reload "AnamHermite" (ser_AnamHermiteD true) (deser_AnamHermiteD true true) o = Some o.
+Proof. exact (AnamHermite_roundtrip_fmt true true). Qed.
 Print Assumptions C08_AnamHermite_roundtrip.
-Theorem C08_AnamHermite_rewrite : forall o o', wf_AnamHermite o ->
-  reload "AnamHermite" ser_AnamHermite deser_AnamHermite o = Some o' ->
-  file "AnamHermite" ser_AnamHermite o' = file "AnamHermite" ser_AnamHermite o.
-Proof. intros o o' H. apply rewrite_of_roundtrip. apply C08_AnamHermite_roundtrip; exact H. Qed.
+Theorem C08_AnamHermite_rewrite : forall o o', wf_AnamHermiteD true true o ->
+  reload "AnamHermite" (ser_AnamHermiteD true) (deser_AnamHermiteD true true) o = Some o' ->
+  file "AnamHermite" (ser_AnamHermiteD true) o' = file "AnamHermite" (ser_AnamHermiteD true) o.
+Proof. exact (AnamHermite_rewrite_fmt true true). Qed.
+(* regression witness: a variance that is not exactly the one of the (rounded) coefficients is kept (it was recomputed);
+   _flagBound = false is kept (it came back true); a file of the previous format gives _flagBound = true *)
+Definition ah_variance_witness : anam_hermiteD :=
+  {| ahd_bound := false;
+     ahd_core := {| ah_azmin := None; ah_azmax := None; ah_aymin := None; ah_aymax := None; ah_pzmin := None; ah_pzmax := None;
+                    ah_pymin := None; ah_pymax := None; ah_mean := Some 1%Q; ah_variance := Some (200000000000001 # 100000000000000)%Q;
+                    ah_rcoef := Some 1%Q; ah_psi := [Some 1%Q; Some 1%Q; Some 1%Q] |} |}.
+Theorem C08_AnamHermite_previous_format_read :
+  option_map (fun o => (ah_variance (ahd_core o), ahd_bound o))
+             (nf_read "AnamHermite" (deser_AnamHermiteD true true) (lex (file "AnamHermite" (ser_AnamHermiteD false) ah_variance_witness)))
+  = Some (Some (200000000000001 # 100000000000000)%Q, true).
+Proof. vm_compute. reflexivity. Qed.
+Theorem C08_AnamHermite_variance_cured :
+  reload "AnamHermite" (ser_AnamHermiteD true) (deser_AnamHermiteD true true) ah_variance_witness = Some ah_variance_witness.
+Proof. vm_compute. reflexivity. Qed.
 
 (* ---- Db: any number of columns (at least one) and samples; distinct names that are words; any locators.
    The replay hypothesis on the locators is executable: it says that Db::setLocatorByUID, applied column by column to
@@ -218,76 +247,89 @@ Theorem C08_DbGrid_rewrite : forall o o', wf_DbGrid o ->
   reload "DbGrid" ser_DbGrid deser_DbGrid o = Some o' -> file "DbGrid" ser_DbGrid o' = file "DbGrid" ser_DbGrid o.
 Proof. intros o o' H. apply rewrite_of_roundtrip. apply C08_DbGrid_roundtrip; exact H. Qed.
 
-(* ---- Vario: any calculation type (symmetric or not), undefined results allowed; regular lags, directions not
-   defined on a grid; any number of variables, directions, lags *)
-Theorem C08_Vario_roundtrip : forall o, wf_Vario o -> forallb good_word (vr_names o) = true ->
-  reload "Vario" ser_Vario deser_Vario o = Some o.
-Proof. intros o H Hn. apply roundtrip_of_reads; [reflexivity | apply good_Vario; exact Hn | apply Vario_reads; exact H]. Qed.
+(* ---- Vario: any calculation type (symmetric or not), undefined results allowed; directions not defined on a grid;
+   any number of variables, directions, lags; format level 4 (irregular lags, bench, cylinder radius, reference date and
+   date bounds are stored). *)
+Theorem C08_Vario_roundtrip : forall o, wf_Vario true o -> forallb good_word (vr_names o) = true ->
+  reload "Vario" (ser_Vario true) (deser_Vario true) o = Some o.
+Proof. exact (Vario_roundtrip_fmt true). Qed.
 Print Assumptions C08_Vario_roundtrip.
-Theorem C08_Vario_rewrite : forall o o', wf_Vario o -> forallb good_word (vr_names o) = true ->
-  reload "Vario" ser_Vario deser_Vario o = Some o' -> file "Vario" ser_Vario o' = file "Vario" ser_Vario o.
-Proof. intros o o' H Hn. apply rewrite_of_roundtrip. apply C08_Vario_roundtrip; assumption. Qed.
-Definition vario_witness (calcul : Z) (res : list triple) : vario :=
-  {| vr_ndim := 1; vr_nvar := 1; vr_scale := Some 0%Q; vr_calcul := calcul; vr_names := [W "z"]; vr_vars := [[Some 2%Q]];
-     vr_dirs := [{| vd_regular := true; vd_npas := 1; vd_optcode := 0; vd_tolcode := Some 0%Q; vd_dpas := Some 1%Q;
-                    vd_toldist := Some (1#2)%Q; vd_grincr := []; vd_tolang := Some 90%Q; vd_codir := [Some 1%Q]; vd_res := res |}] |}.
+Theorem C08_Vario_rewrite : forall o o', wf_Vario true o -> forallb good_word (vr_names o) = true ->
+  reload "Vario" (ser_Vario true) (deser_Vario true) o = Some o' -> file "Vario" (ser_Vario true) o' = file "Vario" (ser_Vario true) o.
+Proof. exact (Vario_rewrite_fmt true). Qed.
+Definition vario_dir (breaks : list dbl) (bench : dbl) (res : list triple) : vdir :=
+  {| vd_npas := 1; vd_optcode := 0; vd_tolcode := Some 0%Q; vd_dpas := Some 1%Q; vd_toldist := Some (1#2)%Q; vd_grincr := [];
+     vd_tolang := Some 90%Q; vd_codir := [Some 1%Q]; vd_bench := bench; vd_cylrad := None; vd_idate := 0; vd_breaks := breaks; vd_res := res |}.
+Definition vario_witness (calcul : Z) (d : vdir) : vario :=
+  {| vr_ndim := 1; vr_nvar := 1; vr_scale := Some 0%Q; vr_calcul := calcul; vr_dates := []; vr_names := [W "z"]; vr_vars := [[Some 2%Q]];
+     vr_dirs := [d] |}.
 (* regression witnesses of the former defects: a covariance (2 npas + 1 results per direction) came back as a
    variogram with the first npas results; an undefined result came back as 0 *)
 Theorem C08_Vario_asym_cured :
   let t k := (Some (inject_Z k), Some (inject_Z k), Some (inject_Z k)) in
-  let o := vario_witness 1 [t 1; t 2; t 3] in reload "Vario" ser_Vario deser_Vario o = Some o.
-Proof. vm_compute. reflexivity. Qed.
+  let o := vario_witness 1 (vario_dir [] None [t 1; t 2; t 3]) in reload "Vario" (ser_Vario true) (deser_Vario true) o = Some o.
+Proof. vm_compute; reflexivity. Qed.
 Theorem C08_Vario_undefined_cured :
-  let o := vario_witness 0 [(Some 0%Q, None, None)] in reload "Vario" ser_Vario deser_Vario o = Some o.
+  let o := vario_witness 0 (vario_dir [] None [(Some 0%Q, None, None)]) in reload "Vario" (ser_Vario true) (deser_Vario true) o = Some o.
+Proof. vm_compute; reflexivity. Qed.
+(* irregular lags and bench: regression witness (the direction came back regular, without bench) *)
+Definition vario_breaks_witness : vario :=
+  vario_witness 0 (vario_dir [Some 0%Q; Some 1%Q; Some 3%Q] (Some (5#2)%Q) [(Some 1%Q, Some 1%Q, Some 1%Q)]).
+Theorem C08_Vario_breaks_cured :
+  reload "Vario" (ser_Vario true) (deser_Vario true) vario_breaks_witness = Some vario_breaks_witness.
 Proof. vm_compute. reflexivity. Qed.
-(* irregular lags: only the flag is written, the direction comes back regular *)
-Theorem C08_Vario_refuted_breaks :
-  let d := {| vd_regular := false; vd_npas := 1; vd_optcode := 0; vd_tolcode := Some 0%Q; vd_dpas := Some 1%Q;
-              vd_toldist := Some (1#2)%Q; vd_grincr := []; vd_tolang := Some 90%Q; vd_codir := [Some 1%Q];
-              vd_res := [(Some 1%Q, Some 1%Q, Some 1%Q)] |} in
-  let o := {| vr_ndim := 1; vr_nvar := 1; vr_scale := Some 0%Q; vr_calcul := 0; vr_names := [W "z"]; vr_vars := [[Some 2%Q]]; vr_dirs := [d] |} in
-  option_map (fun o => map vd_regular (vr_dirs o)) (reload "Vario" ser_Vario deser_Vario o) = Some [true].
+(* a reader of level 4 still reads the files of level 3 *)
+Theorem C08_Vario_level3_read_by_level4 :
+  let t k := (Some (inject_Z k), Some (inject_Z k), Some (inject_Z k)) in
+  let o := vario_witness 1 (vario_dir [] None [t 1; t 2; t 3]) in
+  nf_read "Vario" (deser_Vario true) (lex (file "Vario" (ser_Vario false) o)) = Some o.
 Proof. vm_compute. reflexivity. Qed.
 
 (* ---- Model: any number of structures (isotropic, anisotropic, rotated), variables, dimensions, drifts.
-   hr, hp: which covariance types have a range / a third parameter (the library's own answer at run time). *)
-Theorem C08_Model_roundtrip : forall hr hp o, wf_Model hr hp o -> forallb good_word (md_drifts o) = true ->
-  reload "Model" ser_Model (deser_Model hr hp) o = Some o.
-Proof.
-  intros hr hp o H Hd. apply roundtrip_of_reads; [reflexivity | apply good_Model; exact Hd | apply Model_reads; exact H].
-Qed.
+   hr, hp: which covariance types have a range / a third parameter (the library's own answer at run time).
+   The means of a model with drift are stored at the end of the file. *)
+Theorem C08_Model_roundtrip : forall hr hp o, wf_Model hr hp true o -> forallb good_word (md_drifts o) = true ->
+  reload "Model" (ser_Model true) (deser_Model hr hp true) o = Some o.
+Proof. exact (fun hr hp => Model_roundtrip_fmt hr hp true). Qed.
 Print Assumptions C08_Model_roundtrip.
-Theorem C08_Model_rewrite : forall hr hp o o', wf_Model hr hp o -> forallb good_word (md_drifts o) = true ->
-  reload "Model" ser_Model (deser_Model hr hp) o = Some o' -> file "Model" ser_Model o' = file "Model" ser_Model o.
-Proof. intros hr hp o o' H Hd. apply rewrite_of_roundtrip. apply C08_Model_roundtrip; assumption. Qed.
+Theorem C08_Model_rewrite : forall hr hp o o', wf_Model hr hp true o -> forallb good_word (md_drifts o) = true ->
+  reload "Model" (ser_Model true) (deser_Model hr hp true) o = Some o' -> file "Model" (ser_Model true) o' = file "Model" (ser_Model true) o.
+Proof. exact (fun hr hp => Model_rewrite_fmt hr hp true). Qed.
 (* the anisotropy coefficients times the largest range give back each range *)
 Theorem C08_Model_ranges : forall rs, rs <> [] -> Forall posd rs ->
   map (fun c => dmul c (dmax rs)) (map (fun r => ddiv r (dmax rs)) rs) = rs.
 Proof. exact map_dmul_ddiv. Qed.
 Print Assumptions C08_Model_ranges.
-(* with a drift the means are not written: they come back as 0 *)
-Theorem C08_Model_refuted_means :
-  let o := {| md_ndim := 1; md_nvar := 1; md_field := None; md_covs := []; md_drifts := [W "Universality_Condition"];
-              md_means := [Some 5%Q]; md_covar0 := [[Some 1%Q]] |} in
-  option_map md_means (reload "Model" ser_Model (deser_Model (fun _ => true) (fun _ => false)) o) = Some [Some 0%Q].
+(* means of a model with drift: regression witness (they came back as 0); a file of the previous format gives 0 *)
+Definition model_means_witness : model :=
+  {| md_ndim := 1; md_nvar := 1; md_field := None; md_covs := []; md_drifts := [W "Universality_Condition"];
+     md_means := [Some 5%Q]; md_covar0 := [[Some 1%Q]] |}.
+Theorem C08_Model_previous_format_read :
+  option_map md_means (nf_read "Model" (deser_Model (fun _ => true) (fun _ => false) true) (lex (file "Model" (ser_Model false) model_means_witness))) = Some [Some 0%Q].
+Proof. vm_compute. reflexivity. Qed.
+Theorem C08_Model_means_cured :
+  reload "Model" (ser_Model true) (deser_Model (fun _ => true) (fun _ => false) true) model_means_witness = Some model_means_witness.
 Proof. vm_compute. reflexivity. Qed.
 
-(* ---- AnamEmpirical: any number of discretisation points (at least one); the two flags that are never written must
-   have their default value *)
-Theorem C08_AnamEmpirical_roundtrip : forall o, wf_AnamEmpirical o ->
-  reload "AnamEmpirical" ser_AnamEmpirical deser_AnamEmpirical o = Some o.
-Proof. intros o H. apply roundtrip_of_reads; [reflexivity | apply good_AnamEmpirical | apply AnamEmpirical_reads; exact H]. Qed.
+(* ---- AnamEmpirical: any number of discretisation points (at least one); the two flags are stored at the end *)
+Theorem C08_AnamEmpirical_roundtrip : forall o, wf_AnamEmpirical true o ->
+  reload "AnamEmpirical" (ser_AnamEmpirical true) (deser_AnamEmpirical true) o = Some o.
+Proof. exact (AnamEmpirical_roundtrip_fmt true). Qed.
 Print Assumptions C08_AnamEmpirical_roundtrip.
-Theorem C08_AnamEmpirical_rewrite : forall o o', wf_AnamEmpirical o ->
-  reload "AnamEmpirical" ser_AnamEmpirical deser_AnamEmpirical o = Some o' ->
-  file "AnamEmpirical" ser_AnamEmpirical o' = file "AnamEmpirical" ser_AnamEmpirical o.
-Proof. intros o o' H. apply rewrite_of_roundtrip. apply C08_AnamEmpirical_roundtrip; exact H. Qed.
-(* the dilution flag is not written *)
-Theorem C08_AnamEmpirical_refuted_flags :
-  let c := {| ac_azmin := None; ac_azmax := None; ac_aymin := None; ac_aymax := None; ac_pzmin := None; ac_pzmax := None;
-              ac_pymin := None; ac_pymax := None; ac_mean := None; ac_variance := None |} in
-  let o := {| ae_cont := c; ae_sigma2e := Some (1#8)%Q; ae_z := [Some 1%Q]; ae_y := [Some 0%Q]; ae_dilution := true; ae_gaussian := false |} in
-  option_map (fun o => (ae_dilution o, ae_gaussian o)) (reload "AnamEmpirical" ser_AnamEmpirical deser_AnamEmpirical o) = Some (false, true).
+Theorem C08_AnamEmpirical_rewrite : forall o o', wf_AnamEmpirical true o ->
+  reload "AnamEmpirical" (ser_AnamEmpirical true) (deser_AnamEmpirical true) o = Some o' ->
+  file "AnamEmpirical" (ser_AnamEmpirical true) o' = file "AnamEmpirical" (ser_AnamEmpirical true) o.
+Proof. exact (AnamEmpirical_rewrite_fmt true). Qed.
+Definition ae_flags_witness : anam_empirical :=
+  {| ae_cont := {| ac_azmin := None; ac_azmax := None; ac_aymin := None; ac_aymax := None; ac_pzmin := None; ac_pzmax := None;
+                   ac_pymin := None; ac_pymax := None; ac_mean := None; ac_variance := None |};
+     ae_sigma2e := Some (1#8)%Q; ae_z := [Some 1%Q]; ae_y := [Some 0%Q]; ae_dilution := true; ae_gaussian := false |}.
+Theorem C08_AnamEmpirical_previous_format_read :
+  option_map (fun o => (ae_dilution o, ae_gaussian o))
+             (nf_read "AnamEmpirical" (deser_AnamEmpirical true) (lex (file "AnamEmpirical" (ser_AnamEmpirical false) ae_flags_witness))) = Some (false, true).
+Proof. vm_compute. reflexivity. Qed.
+Theorem C08_AnamEmpirical_flags_cured :
+  reload "AnamEmpirical" (ser_AnamEmpirical true) (deser_AnamEmpirical true) ae_flags_witness = Some ae_flags_witness.
 Proof. vm_compute. reflexivity. Qed.
 
 (* ---- MeshETurbo: any dimension (at least 1), any grid, with or without masks on meshes / grid nodes *)
@@ -308,14 +350,16 @@ Example C08_nonvacuous_lex :
   lex (print rs) = [[W "X"]; [W "2"]; [W "3"; W "NA"]; [W "1/3"; W "NA"]; []; [W "a"; W "b"]; [W "5/2"]; []].
 Proof. vm_compute. split; reflexivity. Qed.
 Example C08_nonvacuous_NeighMoving :
-  let o := {| nm_base := aneigh_default 3; nm_nmini := 2; nm_nmaxi := 10; nm_nsect := 4; nm_nsmax := 3; nm_distcont := None;
+  let o := {| nm_base := {| an_ndim := 3; an_xvalid := true; an_kfold := false; an_ball := true; an_leaf := 30 |};
+              nm_nmini := 2; nm_nmaxi := 10; nm_nsect := 4; nm_nsmax := 3; nm_distcont := Some (1#8)%Q;
               nm_radius := Some 20%Q; nm_aniso := true; nm_rot := true;
               nm_coeffs := [Some 3%Q; Some (1#2)%Q; Some 7%Q];
               nm_rotmat := [Some (4#5)%Q; Some (3#5)%Q; Some 0%Q; Some (-3#5)%Q; Some (4#5)%Q; Some 0%Q; Some 0%Q; Some 0%Q; Some 1%Q] |} in
-  wf_NeighMoving o /\ reload "NeighMoving" ser_NeighMoving deser_NeighMoving o = Some o.
+  wf_NeighMoving true o /\ reload "NeighMoving" (ser_NeighMovingD true) (deser_NeighMovingD true) o = Some o.
 Proof.
   split; [|vm_compute; reflexivity].
-  unfold wf_NeighMoving; cbn. repeat split; auto; try (repeat constructor; vm_compute; reflexivity); try congruence.
+  unfold wf_NeighMoving, wf_NeighMoving_core, wf_aneighD; cbn.
+  repeat split; auto; try (repeat constructor; vm_compute; reflexivity); try congruence; try discriminate.
 Qed.
 Example C08_nonvacuous_Table :
   let o := {| tb_ncols := 2; tb_nrows := 3; tb_rows := [[Some 1%Q; None]; [Some (-7#4)%Q; Some 0%Q]; [None; None]] |} in
@@ -336,10 +380,12 @@ Example C08_nonvacuous_AnamHermite :
               ah_pzmin := Some 0%Q; ah_pzmax := Some 9%Q; ah_pymin := Some (-3)%Q; ah_pymax := Some 3%Q;
               ah_mean := Some (3#2)%Q; ah_variance := Some (17#256)%Q; ah_rcoef := Some (1#2)%Q;
               ah_psi := [Some (3#2)%Q; Some (-1#2)%Q; Some (1#4)%Q] |} in
-  wf_AnamHermite o /\ reload "AnamHermite" ser_AnamHermite deser_AnamHermite o = Some o.
+  let od := {| ahd_core := o; ahd_bound := false |} in
+  wf_AnamHermiteD true true od /\
+  reload "AnamHermite" (ser_AnamHermiteD true) (deser_AnamHermiteD true true) od = Some od.
 Proof.
   split; [|vm_compute; reflexivity].
-  unfold wf_AnamHermite; cbn. repeat split; auto; try (repeat constructor; vm_compute; reflexivity); try congruence.
+  unfold wf_AnamHermiteD, wf_AnamHermite; cbn. repeat split; auto; try (repeat constructor; vm_compute; reflexivity); try congruence.
 Qed.
 Ltac fa := match goal with |- Forall _ ?l => let l' := eval vm_compute in l in change l with l' end;
            repeat (apply Forall_cons); try apply Forall_nil.
@@ -382,20 +428,23 @@ Proof.
 Qed.
 Example C08_nonvacuous_Vario :
   let t k := (Some (inject_Z k), Some (k # 2)%Q, Some (inject_Z k)) in
-  let o := {| vr_ndim := 2; vr_nvar := 2; vr_scale := Some 0%Q; vr_calcul := 1; vr_names := [W "a"; W "b"];
+  let o := {| vr_ndim := 2; vr_nvar := 2; vr_scale := Some 0%Q; vr_calcul := 1; vr_dates := [Some 0%Q; Some 10%Q]; vr_names := [W "a"; W "b"];
               vr_vars := [[Some 2%Q; Some (1#2)%Q]; [Some (1#2)%Q; Some 3%Q]];
-              vr_dirs := [{| vd_regular := true; vd_npas := 2; vd_optcode := 0; vd_tolcode := Some 0%Q; vd_dpas := Some 1%Q;
+              vr_dirs := [{| vd_bench := Some (5#2)%Q; vd_cylrad := None; vd_idate := 1; vd_breaks := [Some 0%Q; Some 1%Q; Some 3%Q];
+                             vd_npas := 2; vd_optcode := 0; vd_tolcode := Some 0%Q; vd_dpas := Some 1%Q;
                              vd_toldist := Some (1#2)%Q; vd_grincr := []; vd_tolang := Some 45%Q;
                              vd_codir := [Some (3#5)%Q; Some (4#5)%Q]; vd_res := map t [1; 3; 5; 7; 9; 11; 13; 15; 17; 19; 21; 23; 25; 27; 29] |}] |} in
-  wf_Vario o /\ reload "Vario" ser_Vario deser_Vario o = Some o.
+  wf_Vario true o /\ reload "Vario" (ser_Vario true) (deser_Vario true) o = Some o.
 Proof.
-  split; [|vm_compute; reflexivity].
-  unfold wf_Vario; cbn [vr_ndim vr_nvar vr_scale vr_calcul vr_names vr_vars vr_dirs].
+  cbv zeta. split; [|vm_compute; reflexivity].
+  unfold wf_Vario; cbn [vr_ndim vr_nvar vr_scale vr_calcul vr_dates vr_names vr_vars vr_dirs].
   split; [wd|]. split; [reflexivity|]. split; [reflexivity|].
   split. { fa; (split; [reflexivity | fa; wd]). }
-  fa. unfold wf_vdir; cbn [vd_regular vd_npas vd_optcode vd_tolcode vd_dpas vd_toldist vd_grincr vd_tolang vd_codir vd_res].
-  split; [reflexivity|]. split; [reflexivity|]. split; [wd|]. split; [wd|]. split; [wd|]. split; [wd|].
+  split; [fa; wd|].
+  fa. unfold wf_vdir; cbn [vd_npas vd_optcode vd_tolcode vd_dpas vd_toldist vd_grincr vd_tolang vd_codir vd_bench vd_cylrad vd_idate vd_breaks vd_res].
+  split; [reflexivity|]. split; [wd|]. split; [wd|]. split; [wd|]. split; [wd|].
   split; [vm_compute; reflexivity|]. split; [reflexivity|]. split; [fa; wd|]. split; [discriminate|].
+  split; [split; [wd | split; [wd | fa; wd]]|].
   split; [reflexivity|].
   fa; unfold wf_triple; repeat split; vm_compute; reflexivity.
 Qed.
@@ -406,11 +455,11 @@ Example C08_nonvacuous_Model :
               md_covs := [{| cv_type := 0; cv_param := Some 0%Q; cv_ranges := []; cv_rotmat := idmat 2; cv_sill := [[Some (1#2)%Q]] |};
                           {| cv_type := 3; cv_param := Some 0%Q; cv_ranges := [Some 10%Q; Some 4%Q]; cv_rotmat := rot; cv_sill := [[Some 2%Q]] |};
                           {| cv_type := 7; cv_param := Some (3#2)%Q; cv_ranges := [Some 5%Q; Some 5%Q]; cv_rotmat := idmat 2; cv_sill := [[Some 1%Q]] |}];
-              md_drifts := []; md_means := [Some (3#2)%Q]; md_covar0 := [[Some 1%Q]] |} in
-  wf_Model hr hp o /\ reload "Model" ser_Model (deser_Model hr hp) o = Some o.
+              md_drifts := [W "Universality_Condition"; W "Drift:x1"]; md_means := [Some (3#2)%Q]; md_covar0 := [[Some 1%Q]] |} in
+  wf_Model hr hp true o /\ reload "Model" (ser_Model true) (deser_Model hr hp true) o = Some o.
 Proof.
   cbv zeta. split; [|vm_compute; reflexivity].
-  unfold wf_Model; cbn [md_ndim md_nvar md_field md_covs md_drifts md_means md_covar0 null].
+  unfold wf_Model; cbn [md_ndim md_nvar md_field md_covs md_drifts md_means md_covar0 null orb].
   split; [wd|].
   split.
   { fa; unfold wf_cova; cbn [cv_type cv_param cv_ranges cv_rotmat cv_sill].
@@ -432,20 +481,20 @@ Proof.
         split; [intros _; reflexivity|].
         split; [reflexivity|]. split; [fa; wd | discriminate]. }
       split; [reflexivity|]. split; [fa; split; [reflexivity | fa; wd]|]. reflexivity. }
-  split; [split; [reflexivity | fa; wd]|].
+  split; [split; [reflexivity | split; [fa; wd | reflexivity]]|].
   split; [reflexivity|]. fa; split; [reflexivity | fa; wd].
 Qed.
 Example C08_nonvacuous_AnamEmpirical :
   let c := {| ac_azmin := Some 0%Q; ac_azmax := Some 9%Q; ac_aymin := Some (-3)%Q; ac_aymax := Some 3%Q; ac_pzmin := None; ac_pzmax := None;
               ac_pymin := None; ac_pymax := None; ac_mean := Some (3#2)%Q; ac_variance := Some 2%Q |} in
   let o := {| ae_cont := c; ae_sigma2e := None; ae_z := [Some 1%Q; Some (5#2)%Q; Some 7%Q]; ae_y := [Some (-1)%Q; Some 0%Q; Some (3#2)%Q];
-              ae_dilution := false; ae_gaussian := true |} in
-  wf_AnamEmpirical o /\ reload "AnamEmpirical" ser_AnamEmpirical deser_AnamEmpirical o = Some o.
+              ae_dilution := true; ae_gaussian := false |} in
+  wf_AnamEmpirical true o /\ reload "AnamEmpirical" (ser_AnamEmpirical true) (deser_AnamEmpirical true) o = Some o.
 Proof.
   cbv zeta. split; [|vm_compute; reflexivity].
   unfold wf_AnamEmpirical, wf_acont; cbn [ae_cont ae_sigma2e ae_z ae_y ae_dilution ae_gaussian ac_azmin ac_azmax ac_aymin ac_aymax ac_pzmin ac_pzmax ac_pymin ac_pymax ac_mean ac_variance].
   split. { repeat split; wd. }
-  split; [wd|]. split; [discriminate|]. split; [reflexivity|]. split; [fa; wd|]. split; [fa; wd|]. split; reflexivity.
+  split; [wd|]. split; [discriminate|]. split; [reflexivity|]. split; [fa; wd|]. split; [fa; wd|]. discriminate.
 Qed.
 Example C08_nonvacuous_MeshETurbo :
   let o := {| mt_nx := [3; 4]; mt_dx := [Some 1%Q; Some (1#2)%Q]; mt_x0 := [Some 10%Q; Some (-5)%Q];
@@ -457,4 +506,310 @@ Proof.
   unfold wf_MeshETurbo; cbn [mt_nx mt_dx mt_x0 mt_rotmat].
   split; [discriminate|]. split; [reflexivity|]. split; [reflexivity|]. split; [reflexivity|].
   split; [fa; wd|]. split; fa; wd.
+Qed.
+
+(* ======================================================================= second wave of classes *)
+(* ---- NeighImage: any dimension, any radii, any options *)
+Theorem C08_NeighImage_roundtrip : forall o, wf_NeighImage true o ->
+  reload "NeighImage" (ser_NeighImage true) (deser_NeighImage true) o = Some o.
+Proof. exact (NeighImage_roundtrip_fmt true). Qed.
+Print Assumptions C08_NeighImage_roundtrip.
+Theorem C08_NeighImage_rewrite : forall o o', wf_NeighImage true o ->
+  reload "NeighImage" (ser_NeighImage true) (deser_NeighImage true) o = Some o' ->
+  file "NeighImage" (ser_NeighImage true) o' = file "NeighImage" (ser_NeighImage true) o.
+Proof. exact (NeighImage_rewrite_fmt true). Qed.
+Definition ni_witness : neigh_image :=
+  {| ni_base := {| an_ndim := 2; an_xvalid := true; an_kfold := false; an_ball := false; an_leaf := 10 |}; ni_skip := 1; ni_radius := [3; 2] |}.
+Theorem C08_NeighImage_previous_format_read :
+  nf_read "NeighImage" (deser_NeighImage true) (lex (file "NeighImage" (ser_NeighImage false) ni_witness))
+  = Some {| ni_base := aneigh_default 2; ni_skip := 1; ni_radius := [3; 2] |}.
+Proof. vm_compute. reflexivity. Qed.
+Theorem C08_NeighImage_options_cured :
+  reload "NeighImage" (ser_NeighImage true) (deser_NeighImage true) ni_witness = Some ni_witness.
+Proof. vm_compute. reflexivity. Qed.
+
+(* ---- Faults: any number of faults, each with any number of points *)
+Theorem C08_Faults_roundtrip : forall fs, wf_Faults fs -> reload "Faults" ser_Faults deser_Faults fs = Some fs.
+Proof. intros fs H. apply roundtrip_of_reads; [reflexivity | apply good_Faults | apply Faults_reads; exact H]. Qed.
+Print Assumptions C08_Faults_roundtrip.
+Theorem C08_Faults_rewrite : forall fs fs', wf_Faults fs ->
+  reload "Faults" ser_Faults deser_Faults fs = Some fs' -> file "Faults" ser_Faults fs' = file "Faults" ser_Faults fs.
+Proof. intros fs fs' H. apply rewrite_of_roundtrip. apply C08_Faults_roundtrip; exact H. Qed.
+
+(* ---- FracEnviron: any number of families and of main faults (a fault has one value of each kind per family; the
+   vectors are empty when the fault is declared before any family); the class tag of the file holds a blank *)
+Theorem C08_FracEnviron_roundtrip : forall o, wf_FracEnviron o ->
+  reload "Fracture Environ" ser_FracEnviron deser_FracEnviron o = Some o.
+Proof. exact FracEnviron_roundtrip. Qed.
+Print Assumptions C08_FracEnviron_roundtrip.
+Theorem C08_FracEnviron_rewrite : forall o o', wf_FracEnviron o ->
+  reload "Fracture Environ" ser_FracEnviron deser_FracEnviron o = Some o' ->
+  file "Fracture Environ" ser_FracEnviron o' = file "Fracture Environ" ser_FracEnviron o.
+Proof. intros o o' H. apply rewrite_of_roundtrip. apply C08_FracEnviron_roundtrip; exact H. Qed.
+
+(* ---- MeshEStandard: any dimension, any number of apices / meshes (also none) *)
+Theorem C08_MeshEStandard_roundtrip : forall o, wf_MeshEStandard o ->
+  reload "MeshEStandard" ser_MeshEStandard deser_MeshEStandard o = Some o.
+Proof. intros o H. apply roundtrip_of_reads; [reflexivity | apply good_MeshEStandard | apply MeshEStandard_reads; exact H]. Qed.
+Print Assumptions C08_MeshEStandard_roundtrip.
+Theorem C08_MeshEStandard_rewrite : forall o o', wf_MeshEStandard o ->
+  reload "MeshEStandard" ser_MeshEStandard deser_MeshEStandard o = Some o' ->
+  file "MeshEStandard" ser_MeshEStandard o' = file "MeshEStandard" ser_MeshEStandard o.
+Proof. intros o o' H. apply rewrite_of_roundtrip. apply C08_MeshEStandard_roundtrip; exact H. Qed.
+
+(* ---- AnamDiscreteIR / AnamDiscreteDD: any number of cutoffs (also none), any number of statistics per class *)
+Theorem C08_AnamDiscreteIR_roundtrip : forall o, wf_AnamDiscreteIR o ->
+  reload "AnamDiscreteIR" ser_AnamDiscreteIR deser_AnamDiscreteIR o = Some o.
+Proof. intros o H. apply roundtrip_of_reads; [reflexivity | apply good_AnamDiscreteIR | apply AnamDiscreteIR_reads; exact H]. Qed.
+Print Assumptions C08_AnamDiscreteIR_roundtrip.
+Theorem C08_AnamDiscreteIR_rewrite : forall o o', wf_AnamDiscreteIR o ->
+  reload "AnamDiscreteIR" ser_AnamDiscreteIR deser_AnamDiscreteIR o = Some o' ->
+  file "AnamDiscreteIR" ser_AnamDiscreteIR o' = file "AnamDiscreteIR" ser_AnamDiscreteIR o.
+Proof. intros o o' H. apply rewrite_of_roundtrip. apply C08_AnamDiscreteIR_roundtrip; exact H. Qed.
+Theorem C08_AnamDiscreteDD_roundtrip : forall o, wf_AnamDiscreteDD o ->
+  reload "AnamDiscreteDD" ser_AnamDiscreteDD deser_AnamDiscreteDD o = Some o.
+Proof. intros o H. apply roundtrip_of_reads; [reflexivity | apply good_AnamDiscreteDD | apply AnamDiscreteDD_reads; exact H]. Qed.
+Print Assumptions C08_AnamDiscreteDD_roundtrip.
+Theorem C08_AnamDiscreteDD_rewrite : forall o o', wf_AnamDiscreteDD o ->
+  reload "AnamDiscreteDD" ser_AnamDiscreteDD deser_AnamDiscreteDD o = Some o' ->
+  file "AnamDiscreteDD" ser_AnamDiscreteDD o' = file "AnamDiscreteDD" ser_AnamDiscreteDD o.
+Proof. intros o o' H. apply rewrite_of_roundtrip. apply C08_AnamDiscreteDD_roundtrip; exact H. Qed.
+
+(* ---- DbLine / DbGraphO: a Db nested in another object: any lines (also empty ones), any arcs, any well-formed Db *)
+Theorem C08_DbLine_roundtrip : forall o, wf_DbLine o -> reload "DbLine" ser_DbLine deser_DbLine o = Some o.
+Proof.
+  intros o H. apply roundtrip_of_reads; [reflexivity | | apply DbLine_reads; exact H].
+  apply good_DbLine. destruct H as (_ & _ & _ & _ & Hg & _). exact Hg.
+Qed.
+Print Assumptions C08_DbLine_roundtrip.
+Theorem C08_DbLine_rewrite : forall o o', wf_DbLine o ->
+  reload "DbLine" ser_DbLine deser_DbLine o = Some o' -> file "DbLine" ser_DbLine o' = file "DbLine" ser_DbLine o.
+Proof. intros o o' H. apply rewrite_of_roundtrip. apply C08_DbLine_roundtrip; exact H. Qed.
+Theorem C08_DbGraphO_roundtrip : forall o, wf_DbGraphO o -> reload "DbGraphO" ser_DbGraphO deser_DbGraphO o = Some o.
+Proof.
+  intros o H. apply roundtrip_of_reads; [reflexivity | | apply DbGraphO_reads; exact H].
+  apply good_DbGraphO. destruct H as (_ & (_ & _ & _ & _ & Hg & _)). exact Hg.
+Qed.
+Print Assumptions C08_DbGraphO_roundtrip.
+Theorem C08_DbGraphO_rewrite : forall o o', wf_DbGraphO o ->
+  reload "DbGraphO" ser_DbGraphO deser_DbGraphO o = Some o' -> file "DbGraphO" ser_DbGraphO o' = file "DbGraphO" ser_DbGraphO o.
+Proof. intros o o' H. apply rewrite_of_roundtrip. apply C08_DbGraphO_roundtrip; exact H. Qed.
+
+(* ---- Rule: any tree of thresholds and facies, of any depth: the node list written in prefix order with the shared rank
+   counter passes the checks of the reader and is hung back into the same tree.  The reader checks the
+   rank of the thresholds only: a rule reduced to one facies (rank 0 for its only node) is reloaded too. *)
+Theorem C08_Rule_roundtrip : forall o, wf_Rule true o -> reload "Rule" ser_Rule (deser_Rule true) o = Some o.
+Proof. exact (Rule_roundtrip_fmt true). Qed.
+Print Assumptions C08_Rule_roundtrip.
+Theorem C08_Rule_rewrite : forall o o', wf_Rule true o ->
+  reload "Rule" ser_Rule (deser_Rule true) o = Some o' -> file "Rule" ser_Rule o' = file "Rule" ser_Rule o.
+Proof. exact (Rule_rewrite_fmt true). Qed.
+(* the reader rebuilds the tree the writer went through *)
+Theorem C08_Rule_tree_rebuilt : forall o l r, wf_node (RThr o l r) ->
+  match build (fst (tuples 0 0 0 0 (RThr o l r))) with Some T => complete T = Some (RThr o l r) | None => False end.
+Proof. intros o l r H. rewrite tuples_spec. cbn [fst]. rewrite build_tups by exact H. apply complete_ann. Qed.
+Print Assumptions C08_Rule_tree_rebuilt.
+(* regression witness: a rule reduced to one facies is written with rank 0 for its only node (the reader refused it) *)
+Definition rule_one_facies : rule := {| ru_mode := 0; ru_rho := Some 0%Q; ru_main := RFac 1 |}.
+Theorem C08_Rule_single_facies_cured : reload "Rule" ser_Rule (deser_Rule true) rule_one_facies = Some rule_one_facies.
+Proof. vm_compute. reflexivity. Qed.
+
+(* ---- RuleShift / RuleShadow *)
+Theorem C08_RuleShift_roundtrip : forall o, wf_RuleShift true true o ->
+  reload "RuleShift" (ser_RuleShift true) (deser_RuleShift true true) o = Some o.
+Proof. exact (RuleShift_roundtrip_fmt true true). Qed.
+Print Assumptions C08_RuleShift_roundtrip.
+Theorem C08_RuleShift_rewrite : forall o o', wf_RuleShift true true o ->
+  reload "RuleShift" (ser_RuleShift true) (deser_RuleShift true true) o = Some o' ->
+  file "RuleShift" (ser_RuleShift true) o' = file "RuleShift" (ser_RuleShift true) o.
+Proof. exact (RuleShift_rewrite_fmt true true). Qed.
+Theorem C08_RuleShadow_roundtrip : forall o, wf_RuleShift true true o ->
+  reload "RuleShadow" (ser_RuleShadow true) (deser_RuleShift true true) o = Some o.
+Proof. exact (RuleShadow_roundtrip_fmt true true). Qed.
+Print Assumptions C08_RuleShadow_roundtrip.
+Theorem C08_RuleShadow_rewrite : forall o o', wf_RuleShift true true o ->
+  reload "RuleShadow" (ser_RuleShadow true) (deser_RuleShift true true) o = Some o' ->
+  file "RuleShadow" (ser_RuleShadow true) o' = file "RuleShadow" (ser_RuleShadow true) o.
+Proof. exact (RuleShadow_rewrite_fmt true true). Qed.
+(* regression witness: a shift given on two components is given back (it came back with three); a file of the previous
+   format gives three components *)
+Definition rs_witness : rule_shift :=
+  {| rs_rule := {| ru_mode := 1; ru_rho := Some 1%Q; ru_main := RThr 1 (RFac 1) (RFac 2) |};
+     rs_slope := Some 0%Q; rs_shdown := Some 0%Q; rs_shdsup := Some 0%Q; rs_shift := [Some (1#5)%Q; Some (3#10)%Q] |}.
+Theorem C08_RuleShift_previous_format_read :
+  nf_read "RuleShift" (deser_RuleShift true true) (lex (file "RuleShift" (ser_RuleShift false) rs_witness))
+  = Some {| rs_rule := rs_rule rs_witness; rs_slope := Some 0%Q; rs_shdown := Some 0%Q; rs_shdsup := Some 0%Q;
+            rs_shift := [Some (1#5)%Q; Some (3#10)%Q; Some 0%Q] |}.
+Proof. vm_compute. reflexivity. Qed.
+Theorem C08_RuleShift_shift_cured :
+  reload "RuleShift" (ser_RuleShift true) (deser_RuleShift true true) rs_witness = Some rs_witness.
+Proof. vm_compute. reflexivity. Qed.
+
+(* ---- non-vacuity of the second wave *)
+Example C08_nonvacuous_NeighImage : wf_NeighImage true ni_witness.
+Proof.
+  unfold wf_NeighImage, wf_aneighD, wf_aneigh, small; cbn [ni_base ni_radius ni_witness an_ndim aneigh_default];
+    (split; [intros; try discriminate; reflexivity|]); (split; [reflexivity|]); repeat constructor.
+Qed.
+Example C08_nonvacuous_Faults :
+  let fs := [[(Some 1%Q, Some 2%Q); (Some (7#2)%Q, None)]; [(Some 0%Q, Some 0%Q); (Some 1%Q, Some 1%Q); (Some 2%Q, Some 0%Q)]] in
+  wf_Faults fs /\ reload "Faults" ser_Faults deser_Faults fs = Some fs.
+Proof.
+  cbv zeta. split; [|vm_compute; reflexivity].
+  unfold wf_Faults. repeat (apply Forall_cons || apply Forall_nil); split; wd.
+Qed.
+Example C08_nonvacuous_FracEnviron :
+  let fam := {| ff_orient := Some 30%Q; ff_dorient := Some 5%Q; ff_theta0 := Some (1#2)%Q; ff_alpha := Some 1%Q; ff_ratcst := Some 0%Q;
+                ff_prop1 := Some (1#4)%Q; ff_prop2 := Some (1#8)%Q; ff_aterm := Some 2%Q; ff_bterm := Some 3%Q; ff_range := Some 10%Q |} in
+  let o := {| fe_xmax := Some 100%Q; fe_ymax := Some 50%Q; fe_deltax := Some 0%Q; fe_deltay := Some 0%Q; fe_mean := Some 10%Q; fe_stdev := Some 2%Q;
+              fe_families := [fam];
+              fe_faults := [{| fl_coord := Some 20%Q; fl_orient := Some 45%Q; fl_thetal := [Some 1%Q]; fl_thetar := [Some 2%Q];
+                               fl_rangel := [Some 5%Q]; fl_ranger := [Some 6%Q] |}] |} in
+  wf_FracEnviron o /\ reload "Fracture Environ" ser_FracEnviron deser_FracEnviron o = Some o.
+Proof.
+  cbv zeta. split; [|vm_compute; reflexivity].
+  unfold wf_FracEnviron, wf_FracFamily, wf_FracFault; cbn -[wf_dbl].
+  repeat (split; [wd|]). split.
+  - constructor; [|constructor]. repeat (split; [wd|]). wd.
+  - constructor; [|constructor]. repeat (split; [wd|]). repeat (split; [reflexivity|]). repeat (split; [fa; wd|]). fa; wd.
+Qed.
+(* a main fault declared before any family: four empty vectors *)
+Example C08_nonvacuous_FracEnviron_fault_without_family :
+  let o := {| fe_xmax := Some 1%Q; fe_ymax := Some 1%Q; fe_deltax := Some 0%Q; fe_deltay := Some 0%Q; fe_mean := Some 1%Q; fe_stdev := Some 1%Q;
+              fe_families := [];
+              fe_faults := [{| fl_coord := Some 20%Q; fl_orient := Some 45%Q; fl_thetal := []; fl_thetar := []; fl_rangel := []; fl_ranger := [] |}] |} in
+  wf_FracEnviron o /\ reload "Fracture Environ" ser_FracEnviron deser_FracEnviron o = Some o.
+Proof.
+  cbv zeta. split; [|vm_compute; reflexivity].
+  unfold wf_FracEnviron, wf_FracFault; cbn -[wf_dbl]. repeat (split; [wd|]). split; [constructor|].
+  constructor; [|constructor]. repeat (split; [wd|]). repeat (split; [reflexivity|]). repeat (split; [constructor|]). constructor.
+Qed.
+Example C08_nonvacuous_MeshEStandard :
+  let o := {| ms_ndim := 2; ms_napices := 3; ms_npm := 3; ms_nmeshes := 1;
+              ms_apices := [Some 0%Q; Some 1%Q; Some 0%Q; Some 0%Q; Some 0%Q; Some 1%Q]; ms_meshes := [0; 1; 2] |} in
+  wf_MeshEStandard o /\ reload "MeshEStandard" ser_MeshEStandard deser_MeshEStandard o = Some o.
+Proof.
+  cbv zeta. split; [|vm_compute; reflexivity]. unfold wf_MeshEStandard; cbn [ms_ndim ms_napices ms_npm ms_nmeshes ms_apices ms_meshes].
+  split; [reflexivity|]. split; [reflexivity|]. fa; wd.
+Qed.
+Example C08_nonvacuous_AnamDiscrete :
+  let d := {| ad_zcut := [Some 1%Q; Some (5#2)%Q]; ad_nelem := 2;
+              ad_stats := [Some (1#2)%Q; Some (1#4)%Q; Some (1#4)%Q; Some 0%Q; Some 1%Q; Some 3%Q] |} in
+  let ir := {| ir_disc := d; ir_rcoef := Some (7#8)%Q |} in
+  let dd := {| dd_disc := d; dd_scoef := Some (1#4)%Q; dd_mu := Some 1%Q;
+               dd_z2f := [Some 1%Q; Some 0%Q; Some 0%Q; Some 1%Q]; dd_f2z := [Some 1%Q; Some 2%Q; Some 3%Q; Some 4%Q] |} in
+  wf_AnamDiscreteIR ir /\ reload "AnamDiscreteIR" ser_AnamDiscreteIR deser_AnamDiscreteIR ir = Some ir /\
+  wf_AnamDiscreteDD dd /\ reload "AnamDiscreteDD" ser_AnamDiscreteDD deser_AnamDiscreteDD dd = Some dd.
+Proof.
+  cbv zeta.
+  assert (Hd : wf_adisc {| ad_zcut := [Some 1%Q; Some (5#2)%Q]; ad_nelem := 2;
+                           ad_stats := [Some (1#2)%Q; Some (1#4)%Q; Some (1#4)%Q; Some 0%Q; Some 1%Q; Some 3%Q] |}).
+  { unfold wf_adisc; cbn [ad_zcut ad_nelem ad_stats]. split; [reflexivity|]. split; fa; wd. }
+  split; [split; [exact Hd | wd]|]. split; [vm_compute; reflexivity|]. split; [|vm_compute; reflexivity].
+  unfold wf_AnamDiscreteDD; cbn [dd_disc dd_scoef dd_mu dd_z2f dd_f2z ad_zcut].
+    split; [exact Hd|]. split; [wd|]. split; [wd|]. split; [reflexivity|]. split; [reflexivity|]. split; fa; wd.
+Qed.
+Example C08_nonvacuous_DbLine_DbGraphO :
+  let d := {| db_nech := 3; db_names := [W "x1"; W "z1"]; db_locs := [Some (0%nat, 0); Some (1%nat, 0)];
+              db_rows := [[Some 0%Q; Some (3#2)%Q]; [Some 1%Q; None]; [Some 2%Q; Some 5%Q]] |} in
+  let l := {| dl_lines := [[0; 1]; []; [2]]; dl_db := d |} in
+  let g := {| go_arcs := [(0, 1, Some (1#2)%Q); (1, 2, Some 3%Q)]; go_db := d |} in
+  wf_Db d /\ reload "DbLine" ser_DbLine deser_DbLine l = Some l /\ wf_DbGraphO g /\ reload "DbGraphO" ser_DbGraphO deser_DbGraphO g = Some g.
+Proof.
+  cbv zeta.
+  assert (Hd : wf_Db {| db_nech := 3; db_names := [W "x1"; W "z1"]; db_locs := [Some (0%nat, 0); Some (1%nat, 0)];
+                        db_rows := [[Some 0%Q; Some (3#2)%Q]; [Some 1%Q; None]; [Some 2%Q; Some 5%Q]] |}).
+  { unfold wf_Db; cbn [db_nech db_names db_locs db_rows].
+    split; [discriminate|]. split; [reflexivity|]. split; [reflexivity|].
+    split. { fa; (split; [reflexivity | split; [fa; wd | discriminate]]). }
+    split; [vm_compute; reflexivity|].
+    split. { fa; vm_compute; repeat split; congruence. }
+    split; [nd | vm_compute; reflexivity]. }
+  split; [exact Hd|]. split; [vm_compute; reflexivity|]. split; [|vm_compute; reflexivity].
+  split; [|exact Hd]. cbn [go_arcs]. unfold wf_arc, small. fa; cbn [fst snd]; (split; [reflexivity|split; [reflexivity|wd]]).
+Qed.
+Example C08_nonvacuous_Rule :
+  let t := RThr 1 (RFac 1) (RThr 2 (RThr 1 (RFac 2) (RFac 3)) (RThr 2 (RFac 4) (RFac 5))) in
+  let o := {| ru_mode := 0; ru_rho := Some (1#2)%Q; ru_main := t |} in
+  wf_Rule true o /\ reload "Rule" ser_Rule (deser_Rule true) o = Some o /\ wf_RuleShift true true {| rs_rule := o; rs_slope := Some 1%Q; rs_shdown := Some (-1)%Q; rs_shdsup := Some 1%Q; rs_shift := [Some (1#5)%Q] |}.
+Proof.
+  cbv zeta.
+  assert (Hr : wf_Rule true {| ru_mode := 0; ru_rho := Some (1#2)%Q;
+                          ru_main := RThr 1 (RFac 1) (RThr 2 (RThr 1 (RFac 2) (RFac 3)) (RThr 2 (RFac 4) (RFac 5))) |}).
+  { unfold wf_Rule; cbn -[wf_dbl]. split; [wd|]. split; [|exact I]. intuition reflexivity. }
+  split; [exact Hr|]. split; [vm_compute; reflexivity|].
+  unfold wf_RuleShift, shift_len; cbn [rs_rule rs_slope rs_shdown rs_shdsup rs_shift length].
+  split; [exact Hr|]. repeat (split; [wd|]). repeat (split; [reflexivity|]). split; [fa; wd|]. apply le_S, le_S, le_n.
+Qed.
+
+(* ======================================================================= strings that are not one data word *)
+(* _recordWrite<String> writes the characters of a string as they are (Db column names, variable names of a Vario, drift
+   names ...).  On the lexical view that every reader sees:
+   - a string holding a blank is two consecutive values: the reader gets its first word and every record after it is read
+     one place too late;
+   - a string starting with '#', and an empty string, are comments: the record vanishes and the reader gets the next one.
+   For every title and whatever follows in the file. *)
+Theorem C08_string_with_blank_is_two_values : forall t a b cs,
+  good_word a = true -> good_word b = true -> good_title t = true ->
+  lex (print_rec (RVal t (a ++ sp :: b)) ++ cs) = lay (RVal [] a) (lay (RVal t b) (lex cs)).
+Proof. exact lex_str_blank. Qed.
+Print Assumptions C08_string_with_blank_is_two_values.
+Theorem C08_string_starting_with_hash_is_a_comment : forall t w cs,
+  null t = false -> good_title t = true -> good_title w = true ->
+  lex (print_rec (RVal t ("#"%char :: w)) ++ cs) = lay (RCom t) (lex cs).
+Proof. exact lex_str_hash. Qed.
+Print Assumptions C08_string_starting_with_hash_is_a_comment.
+Theorem C08_empty_string_is_a_comment : forall t cs,
+  null t = false -> good_title t = true -> lex (print_rec (RVal t []) ++ cs) = lay (RCom t) (lex cs).
+Proof. exact lex_str_empty. Qed.
+(* a good string (one word, not "NA"-like problems aside) is read back, whatever the title *)
+Theorem C08_string_word_read_back : forall t w, reads rd_str [r_str t w] w.
+Proof. exact reads_str. Qed.
+Example C08_nonvacuous_string_with_blank :
+  nf_read "T" (s <- rd_str ;; n <- rd_int ;; ret (s, n))
+          (lex (print (nf_write "T" [r_str "Name" (W "Zn ppm"); r_int "Count" 7]))) = None /\
+  nf_read "T" (s <- rd_str ;; t <- rd_str ;; n <- rd_int ;; ret (s, t, n))
+          (lex (print (nf_write "T" [r_str "Name" (W "Zn ppm"); r_int "Count" 7]))) = Some (W "Zn", W "ppm", 7) /\
+  nf_read "T" (s <- rd_str ;; ret s)
+          (lex (print (nf_write "T" [r_str "Name" (W "#1"); r_str "Other" (W "x")]))) = Some (W "x").
+Proof. vm_compute. repeat split; reflexivity. Qed.
+
+(* ======================================================================= records of any length *)
+(* A vector record (_recordWriteVec, _tableWrite) is written on ONE line, whatever its number of values; so are the names
+   and the locators of a Db, and the untitled values of a row.  Nothing in the codec bounds the length of a line, of a
+   word or of a record: the theorems of layer 1 (C08_lex_print, C08_readers_see_lex, C08_file_roundtrip) and every class
+   theorem quantify over lists of any length.  Stated explicitly: *)
+Theorem C08_vector_record_of_any_length : forall t ds, Forall wf_dbl ds -> reads (rd_vdbl (lenZ ds)) [r_vdbl t ds] ds.
+Proof. exact reads_vdbl_any. Qed.
+Print Assumptions C08_vector_record_of_any_length.
+Theorem C08_int_vector_record_of_any_length : forall t zs, reads (rd_vint (lenZ zs)) [r_vint t zs] zs.
+Proof. exact reads_vint_any. Qed.
+Theorem C08_record_line_of_any_length : forall r cs, good_rec r = true -> lex (print_rec r ++ cs) = lay r (lex cs).
+Proof. exact lex_print_rec. Qed.
+Print Assumptions C08_record_line_of_any_length.
+(* for every bound there is a record whose line is longer and that is read back *)
+Theorem C08_no_bound_on_the_length_of_a_line : forall n : nat, exists ds,
+  (n < length (print [r_vdbl "" ds]))%nat /\
+  nf_read "T" (rd_vdbl (lenZ ds)) (lex (print (nf_write "T" [r_vdbl "" ds]))) = Some ds.
+Proof.
+  intros n. exists (repeat d0 (S n)). split.
+  - eapply Nat.lt_le_trans; [|apply print_vdbl_long]. rewrite repeat_length. apply Nat.lt_succ_diag_r.
+  - apply long_vector_read_back. apply Forall_forall. intros x Hx. apply repeat_spec in Hx. subst x. apply wf_d0.
+Qed.
+Print Assumptions C08_no_bound_on_the_length_of_a_line.
+(* non-vacuity on long records: a MeshEStandard with 1 500 apices, computed (a line of more than 10 000 characters), and a
+   vector whose line has more than 100 000 characters *)
+Definition zseq (n : nat) : list Z := map Z.of_nat (seq 0 n).
+Example C08_nonvacuous_long_record :
+  let o := {| ms_ndim := 2; ms_napices := 1500; ms_npm := 3; ms_nmeshes := 1000;
+              ms_apices := map (fun k => Some (inject_Z (1000 + k))) (zseq 3000); ms_meshes := zseq 3000 |} in
+  Nat.ltb 10000 (fold_right Nat.max 0%nat (map (fun l => length (flat_map (fun w => w ++ [sp]) l)) (lex (file "MeshEStandard" ser_MeshEStandard o)))) = true /\
+  reload "MeshEStandard" ser_MeshEStandard deser_MeshEStandard o = Some o.
+Proof. vm_compute. split; reflexivity. Qed.
+Example C08_nonvacuous_very_long_record : exists ds,
+  Nat.ltb 100000 (length (print [r_vdbl "" ds])) = true /\
+  nf_read "T" (rd_vdbl (lenZ ds)) (lex (print (nf_write "T" [r_vdbl "" ds]))) = Some ds.
+Proof.
+  destruct (C08_no_bound_on_the_length_of_a_line 100000) as (ds & Hl & Hr). exists ds. split; [|exact Hr].
+  apply Nat.ltb_lt. exact Hl.
 Qed.
